@@ -1,3 +1,4 @@
+import Oidc.Shapes
 import Oidc.Proofs.World3
 import Oidc.Proofs.WorldHist
 import Oidc.Proofs.World2
@@ -105,5 +106,10 @@ theorem login_completes (c : Cfg) (e1 e2 : Env) (r1 r2 : Req) (v : View) (fuel :
 
 /-- obligation against the regenerated facts: nonce and verifier are 32 bytes read from crypto/rand (no math/rand in that file) -/
 theorem facts_ok : Oidc.Facts.GoodRandom := by decide
+
+/-! obligations against the regenerated shapes: the functions these theorems rest on still have the steps, guards, status
+    codes and literals the model was written against (`Oidc/Shapes.lean`) -/
+theorem shape_handleCallback_ok : Oidc.Shapes.Shape_handleCallback := by unfold Oidc.Shapes.Shape_handleCallback; rfl
+theorem shape_defaultInitiateAuthentication_ok : Oidc.Shapes.Shape_defaultInitiateAuthentication := by unfold Oidc.Shapes.Shape_defaultInitiateAuthentication; rfl
 
 end Oidc.Props.C03
